@@ -1212,6 +1212,90 @@ theorem subst_atoms {c : Cats} {lv : Option String} {σ : String → Option Expr
     obtain ⟨d1, d2⟩ := subst_atoms ok d (fun m hm => h m (by simp [idxNames, hm]))
     simp [substRef, atoms, a1, d1, a2, d2]
 
+/-! ## Expansion of array variables keeps the verdict of the duration check -/
+
+/-- The category table after expansion: scalars keep their entry, the element `x[k]` has the
+    category (and fixedness) of the array `x`. -/
+structure ExpandsTo (c c' : Cats) : Prop where
+  scalar : ∀ n, c'.cat n = c.cat n ∧ c'.fixed n = c.fixed n
+  element : ∀ n k, c'.cat (elemName n k) = c.cat n ∧ c'.fixed (elemName n k) = c.fixed n
+
+theorem disallowed_var_scalar {c c' : Cats} (h : ExpandsTo c c') (n : String) :
+    disallowed c' (.var n) = disallowed c (.var n) := by
+  simp [disallowed, (h.scalar n).1, (h.scalar n).2]
+
+theorem disallowed_var_elem {c c' : Cats} (h : ExpandsTo c c') (n : String) (k : Nat) :
+    disallowed c' (.var (elemName n k)) = disallowed c (.var n) := by
+  simp [disallowed, (h.element n k).1, (h.element n k).2]
+
+theorem disallowed_der_scalar {c c' : Cats} (h : ExpandsTo c c') (n : String) :
+    disallowed c' (.der n) = disallowed c (.der n) := by
+  simp [disallowed, (h.scalar n).1]
+
+theorem disallowed_der_elem {c c' : Cats} (h : ExpandsTo c c') (n : String) (k : Nat) :
+    disallowed c' (.der (elemName n k)) = disallowed c (.der n) := by
+  simp [disallowed, (h.element n k).1]
+
+theorem atoms_of_litIndex {lv : Option String} {i : Expr} {k : Nat} (h : litIndex i = some k) : atoms lv i = [] := by
+  cases i <;> simp [litIndex] at h
+  simp [atoms]
+
+theorem expand_atoms {c c' : Cats} (h : ExpandsTo c c') (lv : Option String)
+    (hlv : ∀ n k, lv ≠ some (elemName n k)) : ∀ (d : Expr),
+    (Atom.loopVar ∈ atoms lv (expandRef d) ↔ Atom.loopVar ∈ atoms lv d) ∧
+    (atoms lv (expandRef d)).any (disallowed c') = (atoms lv d).any (disallowed c)
+  | .lit _ => by simp [expandRef, atoms]
+  | .time => by simp [expandRef, atoms, disallowed]
+  | .dsym _ => by simp [expandRef, atoms, disallowed]
+  | .der n => by simp [expandRef, atoms, disallowed_der_scalar h n]
+  | .ref n => by
+    by_cases hl : lv = some n
+    · simp [expandRef, atoms, hl, disallowed]
+    · simp [expandRef, atoms, hl, disallowed_var_scalar h n]
+  | .idx n i => by
+    cases hq : litIndex i with
+    | some k =>
+      have ha := atoms_of_litIndex (lv := lv) hq
+      have hl := hlv n k
+      simp [expandRef, hq, atoms, ha, hl, disallowed_var_elem h n k]
+    | none =>
+      obtain ⟨i1, i2⟩ := expand_atoms h lv hlv i
+      by_cases hl : Atom.loopVar ∈ atoms lv i
+      · simp [expandRef, hq, atoms, hl, i1.mpr hl, disallowed]
+      · have hl' : Atom.loopVar ∉ atoms lv (expandRef i) := fun hh => hl (i1.mp hh)
+        simp [expandRef, hq, atoms, hl, hl', i2, disallowed_var_scalar h n]
+  | .derAt n i => by
+    cases hq : litIndex i with
+    | some k =>
+      have ha := atoms_of_litIndex (lv := lv) hq
+      simp [expandRef, hq, atoms, ha, disallowed_der_elem h n k]
+    | none =>
+      obtain ⟨i1, i2⟩ := expand_atoms h lv hlv i
+      by_cases hl : Atom.loopVar ∈ atoms lv i
+      · simp [expandRef, hq, atoms, hl, i1.mpr hl, disallowed]
+      · have hl' : Atom.loopVar ∉ atoms lv (expandRef i) := fun hh => hl (i1.mp hh)
+        simp [expandRef, hq, atoms, hl, hl', i2, disallowed_der_scalar h n]
+  | .dsymAt k i => by
+    obtain ⟨i1, i2⟩ := expand_atoms h lv hlv i
+    by_cases hl : Atom.loopVar ∈ atoms lv i
+    · simp [expandRef, atoms, hl, i1.mpr hl, disallowed]
+    · have hl' : Atom.loopVar ∉ atoms lv (expandRef i) := fun hh => hl (i1.mp hh)
+      simp [expandRef, atoms, hl, hl', i2, disallowed]
+  | .un _ e => by simpa [expandRef, atoms] using expand_atoms h lv hlv e
+  | .bin _ a b => by
+    obtain ⟨a1, a2⟩ := expand_atoms h lv hlv a
+    obtain ⟨b1, b2⟩ := expand_atoms h lv hlv b
+    simp [expandRef, atoms, a1, b1, a2, b2]
+  | .ite x t e => by
+    obtain ⟨x1, x2⟩ := expand_atoms h lv hlv x
+    obtain ⟨t1, t2⟩ := expand_atoms h lv hlv t
+    obtain ⟨e1, e2⟩ := expand_atoms h lv hlv e
+    simp [expandRef, atoms, x1, t1, e1, x2, t2, e2]
+  | .delay _ a d => by
+    obtain ⟨a1, a2⟩ := expand_atoms h lv hlv a
+    obtain ⟨d1, d2⟩ := expand_atoms h lv hlv d
+    simp [expandRef, atoms, a1, d1, a2, d2]
+
 /-! ## The cache state machine -/
 
 theorem transferCalls_agree (compile : CallResult) : ∀ (n : Nat) (f : Bool), (f = true → compile = .returned) →
